@@ -29,7 +29,7 @@ def main(tier):
     cc.cpython_traces(mods, oracles)
     model_ok = False
     try:
-        model_ok = cc.coq_analyse(mods, "C01") and cc.coq_traces(mods, oracles, "C01")
+        model_ok = cc.coq_analyse(mods, "C01") and cc.coq_traces(mods, oracles, "C01") and cc.coq_build(mods, "C01")
     except Exception as e:
         ck.broken_ties.append("model evaluation failed: " + str(e)[-1500:])
 
@@ -95,6 +95,27 @@ def main(tier):
                     if tie_mism <= 3:
                         ck.broken_ties.append("model tie: statement line %d of %s in %s: model says %s, pyscn ranges %s say %s"
                                               % (k, name, m["path"], "dead" if md else "live", ranges, "dead" if idd else "live"))
+    # (4) graph-level model tie: Cfg/Builder.v finding ranges and complexity (all constructs) vs pyscn, exactly
+    rng_mism = cx_mism = 0
+    if model_ok:
+        for m in mods:
+            rows = {r["name"]: r for r in m["impl_funcs"]}
+            for name, lst in cc.def_table(m).items():
+                s, path = lst[0]
+                b = m["builder"].get(s[1])
+                if b is None:
+                    continue
+                ir = sorted((a, e) for (a, e, *_r) in m["impl_dead"].get(name, []))
+                stats["builder_functions"] = stats.get("builder_functions", 0) + 1
+                if ir != b["ranges"]:
+                    rng_mism += 1
+                    if rng_mism <= 2:
+                        ck.broken_ties.append("builder tie: finding ranges of %s in %s: pyscn %s, Builder.v %s" % (name, m["path"], ir, b["ranges"]))
+                if name in rows and rows[name]["complexity"] != b["cx"]:
+                    cx_mism += 1
+                    if cx_mism <= 2:
+                        ck.broken_ties.append("builder tie: complexity of %s in %s: pyscn %s, Builder.v %s" % (name, m["path"], rows[name]["complexity"], b["cx"]))
+        tie_mism += rng_mism + cx_mism
     if tie_mism or sem_mism:
         ck.notes.append("tie mismatches: model %d, semantics %d" % (tie_mism, sem_mism))
         # keep the first offending file for the replay
